@@ -329,8 +329,8 @@ def process(ck, m, rng, gs, schema, sdl, wschema, items, max_depth):
 def run(tier):
     ck = Check("C13", tier)
     ck.assumptions += ASSUMPTIONS
-    br = common.build("C13", models=("exec",))
-    ck.proofs(br)
+    br = common.build("C13", models=("exec", "rules13"), extra_targets=("theories/Properties/C13rules.vo",))
+    ck.proofs(br, extra_files=("C13rules",))
     if not br.ok:
         return ck.finish()
     m = Model("exec")
@@ -352,6 +352,14 @@ def run(tier):
                "attributable to the data; shape_ok); the spec-deferred case (a nullable variable that is null) is "
                "classified and counted. non-trivial = mutant or document using fragments/aliases/directives/variables, "
                "and every executed request")
+    if br.ok:
+        # the ten schema-dependent rules the typing judgment relies on: extracted models vs the real rules
+        from . import crules13
+        rule0 = ck.rule
+        ck.assumptions += crules13.ASSUMPTIONS
+        crules13.core(ck, tier, True, budget_s=20 if tier == "quick" else 240)
+        ck.extra["rules13_rule"] = ck.rule
+        ck.rule = rule0 + " (validation rules) see coverage.rules13_rule"
     return ck.finish()
 
 
